@@ -9,7 +9,9 @@ for d in sorted(glob.glob(os.path.join(V, "seeded", "*", "meta.json"))):
     what = re.sub(r"\s+", " ", m.get("what_changed") or "")[:150].replace("|", "/")
     own = "yes" if m.get("caught_by_own_property_check") else "**no**"
     others = ", ".join(c for c in m.get("checks_that_report_it", []) if c != m["property"])
-    rows.append(f"| {sid} | {what} | {own} | {others} |")
-print("| seeded change | what it changes (abridged) | reported by its own property's check | also reported by |")
-print("|---|---|---|---|")
+    first = m.get("caught_when_first_run")
+    first = "n/a (round 1: the rules were built on it)" if first is None else ("yes" if first else "**no** - became a rule")
+    rows.append(f"| {sid} | {what} | {own} | {first} | {others} |")
+print("| seeded change | what it changes (abridged) | reported by its own property's check | when first run | also reported by |")
+print("|---|---|---|---|---|")
 print("\n".join(rows))
